@@ -41,6 +41,9 @@ def run(db, rep, tier):
     rep.rule("R7-binary-safe", "record data leaves the parser with an explicit length; only NUL-terminated text goes through a C string", 1)
     r6(db, rep)
     r7(db, rep)
+    rep.rule("R8-pointer-space", "a decoded compression pointer (offset from the start of the MESSAGE) meets a records-relative offset only "
+                                 "after the 12-byte header has been accounted for on one side", 4)
+    r8(db, rep)
     rep.explanation = ("Decides the structural clauses of C10: memory safety of all raw DNS walkers and getters under a "
                        "class invariant that is itself proved (constructors, add_query) or carried by shape rules (add_record "
                        "family); header-count / insertion pairing; section shifting. Name-length limits, pointer rewriting "
@@ -407,3 +410,91 @@ def r7(db, rep):
                           "binary RDATA) is cut there" % bad[1])
         else:
             rep.ok("R7-binary-safe", key, facts.loc(f), "written only by %d text-producing call(s)" % n_w)
+
+
+def r8(db, rep):
+    """Compression pointers count from the first octet of the message; every index libtins keeps (section starts,
+    thresholds, positions in records_data_) counts from the first octet after the header.  A variable assigned
+    `... & 0x3fff` is in message space; each later read of it must be one of
+      const-compare   compared with a constant                     (range check)
+      converted       V - sizeof(header)                           (now records space)
+      adjusted        compared with E + sizeof(header)             (other side moved to message space)
+      re-encode       (V + delta) | 0xc000 stored back             (stays in message space)
+    Anything else that compares it with, or indexes by, a non-constant is a violation."""
+    hdr = (db.records.get(DNS + "::dns_header") or {}).get("size")
+    if not hdr:
+        rep.analysis_broken("size of DNS::dns_header unknown")
+        return
+    decoders = 0
+    for f in sorted(dns_functions(db), key=lambda x: x["id"]):
+        ptrvars = {}
+        for x in facts.fn_nodes(f):
+            if x["k"] == "BinaryOperator" and x.get("op") == "=":
+                l = strip(x["c"][0])
+                if l["k"] == "DeclRefExpr" and any(y["k"] == "BinaryOperator" and y.get("op") == "&" and
+                                                   0x3fff in (facts.cval(y["c"][0]), facts.cval(y["c"][1])) for y in facts.walk(x["c"][1])):
+                    ptrvars[l["var"]] = x
+        if not ptrvars:
+            continue
+        decoders += 1
+        idx, par = facts.index_fn(f)
+        n = 0
+        for x in facts.fn_nodes(f):
+            if x["k"] != "DeclRefExpr" or x.get("var") not in ptrvars:
+                continue
+            p = par.get(x["id"])
+            child = x
+            while p is not None and p["k"] in ("ImplicitCastExpr", "ParenExpr", "CStyleCastExpr", "CXXStaticCastExpr"):
+                child, p = p, par.get(p["id"])
+            if p is None:
+                continue
+            if p["k"] == "BinaryOperator" and p.get("op") == "=" and p["c"][0] is child:
+                continue                # a store to the variable
+            if p["k"] == "UnaryOperator" and p.get("op") == "&":
+                continue                # memcpy(&index, ...) / memcpy(ptr, &index, ...)
+            n += 1
+            key = "%s:%s#%d" % (f["qual"].split("::")[-1], x.get("name"), n)
+            site = facts.loc(f, x)
+            verdict, why = None, ""
+            if p["k"] == "BinaryOperator":
+                other = p["c"][1] if p["c"][0] is child else p["c"][0]
+                oc = facts.cval(other)
+                op = p.get("op")
+                if op in ("<", ">", "<=", ">=", "==", "!="):
+                    o0 = facts.strip_all(other)
+                    if oc is not None:
+                        verdict, why = "ok", "compared with the constant %s" % oc
+                    elif o0["k"] == "BinaryOperator" and o0.get("op") == "+" and hdr in (facts.cval(o0["c"][0]), facts.cval(o0["c"][1])):
+                        verdict, why = "ok", "compared with `%s`: the other side is moved into message space" % facts.expr_str(o0)
+                    else:
+                        verdict = "violation"
+                        why = ("the compression pointer `%s` counts from the start of the message, `%s` counts from the start of the "
+                               "records (%d octets later): pointers to names in the %d octets before that position are %s"
+                               % (x.get("name"), facts.expr_str(other), hdr, hdr - 1,
+                                  "relocated although their target does not move" if op in (">", ">=") else "misjudged"))
+                elif op == "-" and p["c"][0] is child and oc == hdr:
+                    verdict, why = "ok", "converted to a records offset by subtracting the header size"
+                elif op == "+":
+                    # re-encode: (V + delta) | 0xc000 ... stored back into V
+                    q, up = p, par.get(p["id"])
+                    while up is not None and up["k"] in ("ImplicitCastExpr", "ParenExpr", "CStyleCastExpr", "CXXStaticCastExpr"):
+                        q, up = up, par.get(up["id"])
+                    if up is not None and up["k"] == "BinaryOperator" and up.get("op") == "|" and \
+                            0xc000 in (facts.cval(up["c"][0]), facts.cval(up["c"][1])):
+                        verdict, why = "ok", "re-encoded as a pointer (stays in message space)"
+                    else:
+                        verdict, why = "violation", "`%s` mixes a message offset with a records offset" % facts.expr_str(p)
+                else:
+                    verdict, why = "ok", "operator %s with a constant" % op if oc is not None else None
+                    if oc is None:
+                        verdict, why = "violation", "`%s` mixes a message offset with a records-relative quantity" % facts.expr_str(p)
+            elif p["k"] == "ArraySubscriptExpr" or (p["k"] == "CXXOperatorCallExpr" and p.get("cname") == "operator[]"):
+                verdict, why = "violation", "records_data_ indexed by a message offset (header size not subtracted)"
+            else:
+                continue
+            if verdict == "ok":
+                rep.ok("R8-pointer-space", key, site, why)
+            else:
+                rep.violation("R8-pointer-space", key, site, why)
+    if decoders < 2:
+        rep.analysis_broken("expected the two compression-pointer decoders (compose_name, update_dname), found %d" % decoders)
